@@ -88,7 +88,7 @@ def judge(comp, res):
     bound = tol * (1 + 1e-6) + 1e-10 * scale
     from mc.ref import pen as RP
     if C.strategy_of(comp["solver"]) == "fixpoint" and comp["penalty"]["name"] not in RP.CONVEX:
-        bound += 1e-7          # accuracy of the brute-force reference prox (golden section on objective values)
+        bound += 1e-6 * (1 + float(np.max(np.abs(w))))   # accuracy of the brute-force reference prox (golden section)
     if viol <= bound:
         return None
     s = comp["solver"]["name"]
